@@ -68,6 +68,9 @@ pub fn classify_panic(msg: &str) -> String {
 }
 
 pub fn quiet_panics() {
+    if std::env::var("RBV_PANIC").is_ok() {
+        return;
+    }
     std::panic::set_hook(Box::new(|_| {}));
 }
 
